@@ -189,6 +189,7 @@ class IncrementalExecutor(Executor[DeliveryGroupMap]):
         self.groups = []
         self.tasks = []
         self.streams = []
+        self.aborted = False
         # All stream item queues, shared with all sub-executors, so that queues
         # produced by work that has not been scheduled yet can still be aborted
         self._stream_item_queues: list[StreamItemQueue] = []
@@ -212,6 +213,7 @@ class IncrementalExecutor(Executor[DeliveryGroupMap]):
         sub_executor.groups = []
         sub_executor.tasks = []
         sub_executor.streams = []
+        sub_executor.aborted = False
         return sub_executor
 
     def abort(self, reason: BaseException | None = None) -> AwaitableOrValue[None]:
@@ -222,6 +224,9 @@ class IncrementalExecutor(Executor[DeliveryGroupMap]):
         asynchronous part of the cleanup, or None when the whole cleanup could
         be run synchronously.
         """
+        # work that is still discovered later (by field completions that have
+        # been left to settle in the background) must not be started any more
+        self.aborted = True
         awaitables: list[Any] = []
         is_awaitable = self.is_awaitable
         for task in self.tasks:
@@ -477,6 +482,9 @@ class IncrementalExecutor(Executor[DeliveryGroupMap]):
 
     def prime_now(self, computation: Computation[WorkResult]) -> None:
         """Prime the computation immediately, tracking its pending future."""
+        if self.aborted:
+            computation.abort()
+            return
         computation.prime()
         future = computation.pending_future
         if future is not None:
